@@ -177,7 +177,7 @@ func runCheck(prop, tier string, writeLock bool) int {
 		violations = append(violations, line)
 	}
 
-	g, err := loadGen(repo, cfg.Packages, filepath.Join(verifRoot, "specs"))
+	g, err := loadGen(repo, cfg.Packages, filepath.Join(verifRoot, "specs"), prop)
 	if err != nil {
 		// the tree does not load (or a contract file does not parse): everything is undecided
 		violate("load", true, map[string]interface{}{"reason": "generator could not load packages or contracts", "detail": err.Error()})
@@ -788,6 +788,21 @@ func (e *Exec) smtFor2(o *Obligation) (string, string) {
 		return ground.String(), ""
 	}
 	inst := ic.instantiate(proc, 3)
+	if sizeOf(inst) > 5<<20 {
+		// too many instances: retry with one round and a small per-quantifier budget; if that is still too big,
+		// leave the quantifiers to the solvers
+		ic2 := &instCtx{sortOf: map[string]string{}, budget: 24}
+		var proc2 []*Sx
+		for _, h := range hyps {
+			flattenAssert(ic2.pos(h), &proc2)
+		}
+		flattenAssert(ic2.neg(parseSx(o.Goal)), &proc2)
+		inst2 := ic2.instantiate(proc2, 1)
+		if sizeOf(inst2) > 5<<20 {
+			return e.smtFor(o), ""
+		}
+		ic, proc, inst = ic2, proc2, inst2
+	}
 	var full, ground strings.Builder
 	full.WriteString(head.String())
 	ground.WriteString(head.String())
@@ -1117,4 +1132,12 @@ func atomicAddF(p *float64, v float64) {
 	fmu.Lock()
 	*p += v
 	fmu.Unlock()
+}
+
+func sizeOf(xs []*Sx) int {
+	n := 0
+	for _, x := range xs {
+		n += len(x.String())
+	}
+	return n
 }
